@@ -113,9 +113,16 @@ pub fn run(rng: &mut Rng, n: usize, sink: &mut Sink) {
             // the conversions and operator glue at the bottom of lib.rs, on every storage shape
             {
                 use std::str::FromStr;
-                let os: &std::ffi::OsStr = a.as_ref();
-                if String::from(a.clone()) != s || String::from(a) != s || os != std::ffi::OsStr::new(s) {
-                    bad("From<LeanString>/From<&LeanString> for String / AsRef<OsStr>");
+                // `AsRef<OsStr>` exists only with the crate's `std` feature (C20 also builds without it)
+                #[cfg(feature = "std")]
+                {
+                    let os: &std::ffi::OsStr = a.as_ref();
+                    if os != std::ffi::OsStr::new(s) {
+                        bad("AsRef<OsStr>");
+                    }
+                }
+                if String::from(a.clone()) != s || String::from(a) != s {
+                    bad("From<LeanString>/From<&LeanString> for String");
                 }
                 match LeanString::from_str(s) {
                     Ok(p) if p.as_str() == s && p.is_heap_allocated() == (s.len() > 16) => {}
